@@ -979,10 +979,10 @@ fn c20_pustruct_puenum() {
     });
 }
 
-/// FlatVec<u32,u16>, FlatString<u16>, FlexVec<u16,u16>, FlexVec<FlatVec<u8,u8>,u8>: the empty state
+/// the empty state of one container (split from one harness: together they did not finish)
 #[kani::proof]
 #[kani::unwind(26)]
-fn c20_containers() {
+fn c20_container_vec_u32_u16() {
     with_buf::<24>(9, 4, |b, len, off| {
         let r = FlatVec::<u32, u16>::default_in_place(b);
         c15_outcome!(r, off, len, 4);
@@ -993,6 +993,12 @@ fn c20_containers() {
             assert!(FlatVec::<u32, u16>::validate(b).is_ok(), "C20: default state / bytes / validation");
         }
     });
+}
+
+/// the empty state of one container (split from one harness: together they did not finish)
+#[kani::proof]
+#[kani::unwind(26)]
+fn c20_container_string_u16() {
     with_buf::<24>(5, 2, |b, len, off| {
         let r = FlatString::<u16>::default_in_place(b);
         c15_outcome!(r, off, len, 2);
@@ -1003,6 +1009,12 @@ fn c20_containers() {
             assert!(FlatString::<u16>::validate(b).is_ok(), "C20: default state / bytes / validation");
         }
     });
+}
+
+/// the empty state of one container (split from one harness: together they did not finish)
+#[kani::proof]
+#[kani::unwind(26)]
+fn c20_container_flex_u16_u16() {
     with_buf::<24>(7, 2, |b, len, off| {
         let r = FlexVec::<u16, u16>::default_in_place(b);
         c15_outcome!(r, off, len, 2);
@@ -1013,6 +1025,12 @@ fn c20_containers() {
             assert!(FlexVec::<u16, u16>::validate(b).is_ok(), "C20: default state / bytes / validation");
         }
     });
+}
+
+/// the empty state of one container (split from one harness: together they did not finish)
+#[kani::proof]
+#[kani::unwind(26)]
+fn c20_container_flex_vec_u8() {
     with_buf::<24>(4, 1, |b, len, off| {
         let r = FlexVec::<FlatVec<u8, u8>, u8>::default_in_place(b);
         c15_outcome!(r, off, len, 1);
